@@ -14,11 +14,15 @@ import (
 type caseList struct {
 	lines []string
 	class []string
+	hang  []bool // predicted endless loop: subject to the global hang budget
+	dropped map[string]int
 }
 
-func (c *caseList) add(class, kind string, args ...string) {
+func (c *caseList) add(class, kind string, args ...string) { c.addH(false, class, kind, args...) }
+func (c *caseList) addH(hangProne bool, class, kind string, args ...string) {
 	c.lines = append(c.lines, kind+" "+strings.Join(args, " "))
 	c.class = append(c.class, class)
+	c.hang = append(c.hang, hangProne)
 }
 
 func main() {
@@ -46,19 +50,52 @@ func main() {
 	if r.Thorough() {
 		scale = 12
 	}
-	cl := &caseList{}
+	cl := &caseList{dropped: map[string]int{}}
+	if r.Thorough() {
+		spinCap = 25
+	}
 	genNDP(cl, rng.Fork(), scale)
 	genHBH(cl, rng.Fork(), scale)
+	genMDNS(cl, rng.Fork(), scale)
+	genNBNS(cl, rng.Fork(), scale)
 
-	obs := p.runAll(cl.lines)
-	for i, l := range cl.lines {
-		f := strings.Fields(l)
-		r.Case(f[0], f[1:], obs[i])
-		r.Stat("class."+cl.class[i], 1)
-		r.Stat("obs."+f[0]+"."+obs[i], 1)
+	// every endless loop costs its time-out: once the budget of observed hangs is used up the
+	// remaining cases of hang-prone classes are dropped (deterministic: fixed chunks, fixed order)
+	budget := int64(64)
+	if r.Thorough() {
+		budget = 600
+	}
+	const chunk = 64
+	for k, n := range cl.dropped {
+		r.Stat("dropped."+k, int64(n))
+	}
+	samples := 0
+	for lo := 0; lo < len(cl.lines); lo += chunk {
+		hi := lo + chunk
+		if hi > len(cl.lines) {
+			hi = len(cl.lines)
+		}
+		var idx []int
+		var lines []string
+		for i := lo; i < hi; i++ {
+			if cl.hang[i] && hangs >= budget {
+				r.Stat("dropped."+cl.class[i], 1)
+				continue
+			}
+			idx = append(idx, i)
+			lines = append(lines, cl.lines[i])
+		}
+		obs := p.runAll(lines)
+		for j, i := range idx {
+			f := strings.Fields(cl.lines[i])
+			r.Case(f[0], f[1:], obs[j])
+			r.Stat("class."+cl.class[i], 1)
+			r.Stat("obs."+f[0]+"."+obs[j], 1)
+			if samples < 8 && (obs[j] == "fuel" || i%997 == 0) {
+				r.Sample(cl.lines[i] + " => " + obs[j])
+				samples++
+			}
+		}
 	}
 	r.Stat("hangs", hangs)
-	for i := 0; i < len(cl.lines) && i < 5; i++ {
-		r.Sample(cl.lines[i] + " => " + obs[i])
-	}
 }
